@@ -338,7 +338,8 @@ func (b *ByteBuffer) AsyncWriteTo(w AsyncWriter, cb AsyncCallback) {
 // bytes are available, ErrNeedMore is returned and no bytes are committed to
 // the read area, hence made available for reading.
 func (b *ByteBuffer) PrepareRead(n int) (err error) {
-	if need := n - b.ReadLen(); need > 0 {
+	if n > b.ReadLen() {
+		need := n - b.ReadLen()
 		if b.WriteLen() >= need {
 			b.Commit(need)
 		} else {
@@ -397,5 +398,8 @@ func (b *ByteBuffer) ShrinkBy(n int) int {
 
 // ShrinkTo shrinks the write to contain min(n, WriteLen()) bytes.
 func (b *ByteBuffer) ShrinkTo(n int) (shrunkBy int) {
+	if n < 0 {
+		n = 0
+	}
 	return b.ShrinkBy(b.WriteLen() - n)
 }
